@@ -268,10 +268,11 @@ Example gtf_demo_roundtrip :
   end.
 Proof. vm_compute. reflexivity. Qed.
 
-(* a malformed attribute column still panics the owning readers (attributes().unwrap()) *)
-Example gtf_malformed_owned_panics :
+(* a malformed attribute column makes the owning conversion fail with the parse error (it was a
+   panic, attributes().unwrap(), before the repair /repo f2d5d2d) *)
+Example gtf_malformed_owned_errors :
   match gtf_read (fun _ => None) [99; 9; 46; 9; 103; 9; 49; 9; 49; 9; 46; 9; 46; 9; 46; 9; 107; 10] with
-  | GRec l => gtf_owned l = Panic /\ snd (l_attrs l) = Some (Err InvalidData)
+  | GRec l => gtf_owned l = Err InvalidData /\ snd (l_attrs l) = Some (Err InvalidData)
   | _ => False
   end.
 Proof. vm_compute. split; reflexivity. Qed.
